@@ -12,6 +12,7 @@ Z3_NEW = os.environ.get("PYVC_Z3", "z3-new")
 Z3_OLD = "/usr/bin/z3"
 CVC5 = "/usr/bin/cvc5"
 NPROC = int(os.environ.get("PYVC_JOBS", "16"))
+REC_NAMES = {"str_join"}
 
 
 def to_smt2(pc, goal=None, get_model=False):
@@ -47,6 +48,8 @@ def _for_cvc5(text):
     text = re.sub(r":qid \S+?(?=[\s)])", "", text)
     text = re.sub(r":skolemid \S+?(?=[\s)])", "", text)
     text = re.sub(r"\(!\s*(\(.*?\))\s*\)", r"\1", text) if False else text
+    for nme in REC_NAMES:
+        text = text.replace("(_ %s 0)" % nme, nme)
     return "(set-logic ALL)\n" + text
 
 
